@@ -564,6 +564,10 @@ func (self *BinaryConv) writeHttpValue(ctx context.Context, resp http.ResponseSe
 					return false, unwrapError(fmt.Sprintf("reading thrift value of '%s' failed, thrift pos:%d", field.Name(), p.Read), err)
 				}
 				textVal = rt.Str2Mem(primitive.KitexToString(obj))
+				if textVal == nil {
+					// an empty text is a value too: keep it distinguishable from "not read yet" for the next annotation
+					textVal = []byte{}
+				}
 				val = textVal
 			} else {
 				val = textVal
